@@ -46,7 +46,7 @@ func qmsg(id int) handler.Message {
 			raw[j] = byte(id + j)
 		}
 	}
-	return handler.Message{MessageType: id, Timestamp: uint(id%604800000) + 1, SentAt: qStrings[id%7],
+	return handler.Message{MessageType: qtype(id), Timestamp: uint(id) + 1, SentAt: qStrings[id%7],
 		StartOfWeek: qStrings[7+id%3], ErrorMessage: qStrings[10+id%2], RawData: raw,
 		Readable: qReadable[id%3], LogLevel: []slog.Level{slog.LevelDebug, slog.LevelInfo}[id%2]}
 }
@@ -55,9 +55,20 @@ var qStrings = []string{"sent-0", "sent-1", "sent-2", "sent-3", "sent-4", "sent-
 var qReadable = []interface{}{"readable-0", "readable-1", 2}
 
 // sameMsg: is m exactly the value that was added under its identity?
+// qtype: every third message or so is other data (type -1), often next to another one
+func qtype(id int) int {
+	if id%3 == 1 || id%7 == 2 {
+		return -1
+	}
+	return id
+}
+
+// qid: the identity of a message travels in its Timestamp field
+func qid(m handler.Message) int { return int(m.Timestamp) - 1 }
+
 func sameMsg(m handler.Message) bool {
-	id := m.MessageType
-	if m.Timestamp != uint(id%604800000)+1 || m.SentAt != qStrings[id%7] || m.StartOfWeek != qStrings[7+id%3] || m.ErrorMessage != qStrings[10+id%2] ||
+	id := qid(m)
+	if id < 0 || m.MessageType != qtype(id) || m.SentAt != qStrings[id%7] || m.StartOfWeek != qStrings[7+id%3] || m.ErrorMessage != qStrings[10+id%2] ||
 		m.LogLevel != []slog.Level{slog.LevelDebug, slog.LevelInfo}[id%2] || m.Readable != qReadable[id%3] {
 		return false
 	}
@@ -83,10 +94,14 @@ func sameMsg(m handler.Message) bool {
 func ids(ms []handler.Message) []int {
 	out := make([]int, len(ms))
 	for i := range ms {
-		out[i] = ms[i].MessageType
+		out[i] = qid(ms[i])
 		if !sameMsg(ms[i]) {
-			out[i] = -1000000000 - ms[i].MessageType
-			alteredNote.Store(fmt.Sprintf("message %d came back as %+v, it was added as %+v", ms[i].MessageType, ms[i], qmsg(ms[i].MessageType)))
+			out[i] = -1000000000 - qid(ms[i])
+			was := "nothing that was added"
+			if qid(ms[i]) >= 0 {
+				was = fmt.Sprintf("%+v", qmsg(qid(ms[i])))
+			}
+			alteredNote.Store(fmt.Sprintf("a message came back as %+v, what was added under that identity is %s", ms[i], was))
 		}
 	}
 	return out
@@ -151,7 +166,7 @@ func execQueueLong(c *child.Ctx, k queueCase, cj []byte) {
 		}
 		ok := len(got) == want
 		for j := 0; ok && j < len(got); j++ {
-			if got[j].MessageType != i-want+j || !sameMsg(got[j]) {
+			if qid(got[j]) != i-want+j || !sameMsg(got[j]) {
 				ok = false
 			}
 		}
@@ -379,15 +394,15 @@ func execQueueStress(c *child.Ctx, k queueCase, cj []byte) {
 				last := map[int]int{}
 				for _, m := range got {
 					if !sameMsg(m) {
-						bad.Store(fmt.Sprintf("a snapshot returned message %d as %+v, it was added as %+v", m.MessageType, m, qmsg(m.MessageType)))
+						bad.Store(fmt.Sprintf("a snapshot returned a message as %+v, which is not what was added under its identity %d", m, qid(m)))
 						return
 					}
-					ad := m.MessageType / 10000000
-					if prev, ok := last[ad]; ok && m.MessageType <= prev {
+					ad := qid(m) / 10000000
+					if prev, ok := last[ad]; ok && qid(m) <= prev {
 						bad.Store(fmt.Sprintf("a snapshot is not in arrival order: %v", ids(got)))
 						return
 					}
-					last[ad] = m.MessageType
+					last[ad] = qid(m)
 				}
 			}
 		}()
